@@ -311,6 +311,17 @@ func (g *gen) project(fn string, from *world.Key, class string, value uint64, op
 		"fm_assigner": op.fmAssigner, "fm_recipient": g.name(op.fmRecipient), "fm_tokens": p.u(op.fmTokens), "fm_nonce": fnonce, "fm_sig": op.fmSig,
 		"panic": panicked,
 	}
+	// a close (or blobber replacement) of an allocation one of whose blobbers is killed or shut down: stake-pool
+	// reward distribution to such a provider is a silent no-op (recorded finding), so its share is credited to nobody
+	closeDead := false
+	if sa := findAlloc(g.prev, op.target); sa != nil {
+		for _, ba := range sa.Blobbers {
+			if pb := findBlobber(g.prev, ba.BlobberID); pb != nil && (pb.Killed || pb.ShutDown) {
+				closeDead = true
+			}
+		}
+	}
+	m["dead_blobber"] = closeDead && (fn == "finalize_allocation" || fn == "cancel_allocation")
 	m["harness_big"] = p.big
 	m["harness_inexact"] = p.inexact
 	return m
